@@ -470,6 +470,7 @@ class Body:
         self.record = not closures_only
         self.accesses = []    # (var or None for Unknown, "Rd"/"Wr", prot, site, note)
         self.calls = []       # (class, method)
+        self.callsites = []   # (site, (class, method))
         self.forks = []       # (class, method)
         self.joins = 0
         self.notes = []
@@ -920,6 +921,13 @@ class Body:
         # `return *this;` hands the caller a reference to the object it already called the method on
         if len(chain) >= 2 and chain[-1].get("kind") == "UnaryOperator" and chain[-1].get("opcode") == "*" and chain[-2].get("kind") == "ReturnStmt":
             return
+        # `this == &other`: the pointer is only compared
+        for p in reversed(chain):
+            if p.get("kind") in ("ImplicitCastExpr", "ParenExpr"):
+                continue
+            if p.get("kind") == "BinaryOperator" and p.get("opcode") in ("==", "!="):
+                return
+            break
         # `*this` / `this` handed to a translated function of namespace bfl: what it does with the object is in its own body
         for p in reversed(chain):
             k = p.get("kind")
@@ -967,6 +975,7 @@ class Body:
             fid = rd.get("id")
             if fid in self.tu.method_by_id:
                 self.calls.append(self.tu.method_by_id[fid])
+                self.callsites.append((self.site(n, chain), self.tu.method_by_id[fid]))
                 if not callee_pos:
                     self.unknown(n, "function %s used as a value" % rd.get("name"), chain)
                 return
@@ -1010,6 +1019,7 @@ class Body:
                     self.unknown(n, "invocation of a global std::function", chain)
                 else:
                     self.calls.append(closure)
+                    self.callsites.append((self.site(n, chain), closure))
             return
 
     def call_to(self, mid, name, n, chain, operator_call=None):
@@ -1024,6 +1034,7 @@ class Body:
                 self.access("%s::%s" % (fc, fn), "Wr", self.tu.sync_type(ft), n, chain, "defaulted operator= of %s" % m[0])
             return True
         self.calls.append(m)
+        self.callsites.append((self.site(n, chain), m))
         return True
 
     def all_fields(self, c, seen=None):
@@ -1128,7 +1139,7 @@ def add_closures(out, b):
         out["methods"].setdefault(key, []).append({
             "type": "closure at " + sub.first_site, "virtual": False, "accesses": sub.accesses,
             "calls": sorted(set(sub.calls)), "forks": sub.forks, "joins": sub.joins, "notes": sub.notes,
-            "site": sub.first_site, "file": sub.first_site.split(":")[0]})
+            "site": sub.first_site, "file": sub.first_site.split(":")[0], "callsites": sorted(set(sub.callsites))})
         add_closures(out, sub)
 
 
@@ -1164,7 +1175,8 @@ def translate_tu(args):
         mi = tu.method_info.get(node.get("id")) or tu.method_info.get(node.get("previousDecl")) or {}
         out["methods"].setdefault((c, name), []).append({
             "type": typ, "virtual": mi.get("virtual", False), "accesses": b.accesses, "calls": sorted(set(b.calls)),
-            "forks": b.forks, "joins": b.joins, "notes": b.notes, "site": b.site(body), "file": os.path.basename(bf or "?")})
+            "forks": b.forks, "joins": b.joins, "notes": b.notes, "site": b.site(body), "file": os.path.basename(bf or "?"),
+            "callsites": sorted(set(b.callsites))})
         add_closures(out, b)
     for (c, node) in tu.ctors:
         body = next((x for x in node.get("inner", []) if x.get("kind") == "CompoundStmt"), {})
@@ -1343,7 +1355,24 @@ def translate(extra_ctl_roots=()):
     info["racy_vars"] = racy_vars(info["offenders"])
     info["shared_vars"] = shared_vars(table)
     info["sites"] = site_map(table)
+    # a sanitizer stack may lose the frames of a callee (tail calls, libstdc++ without frame pointers): the line of a call
+    # stands for everything the callee may access
+    cache = {}
+
+    def callee_vars(c, m):
+        if (c, m) not in cache:
+            ms, _ = reach(resolve(c, m))
+            cache[(c, m)] = set((a[0] if a[0] else "unknown") for k in ms for ov in methods[k] for a in ov["accesses"])
+        return cache[(c, m)]
+    for k in set(ctl) | set(flt):
+        for ov in methods[k]:
+            for (site, (c, m)) in ov.get("callsites", []):
+                vs = callee_vars(c, m)
+                if vs:
+                    info["sites"][site] = sorted(set(info["sites"].get(site, [])) | vs)
     info["ctl_ctl"] = ctl_ctl_conflicts(table)
+    cacc = [a for e in table if e["thread"] == "Ctl" and e["phase"] == "Concurrent" for a in e["accs"]]
+    info["ctl_ctl_count"] = sum(1 for a in cacc for b in cacc if not pair_ok(a, b, "Concurrent"))
     return info
 
 
@@ -1451,6 +1480,11 @@ def render(info, name="current_table", header=None):
     L.append("")
     L.append("Lemma py_checker_agrees : racy_vars current_table = py_racy_vars /\\ List.length (race_freeb current_table) = py_offender_count.")
     L.append("Proof. vm_compute. split; reflexivity. Qed.")
+    L.append("")
+    L.append("(* pairs of control accesses that would conflict with TWO controlling threads (outside the property) *)")
+    L.append("Definition py_ctl_ctl_count : nat := %d." % info["ctl_ctl_count"])
+    L.append("Lemma py_ctl_ctl_agrees : List.length (ctl_ctl_offenders current_table) = py_ctl_ctl_count.")
+    L.append("Proof. vm_compute. reflexivity. Qed.")
     return "\n".join(L) + "\n"
 
 
